@@ -848,7 +848,23 @@ def t_enc(t):
             fe.functions_declared()      # as in BlockOptimizer: declared before the lazy generators are consumed
             hard = [_ser(c.formula, env) for c in gen_hard]
             inst, meta = enc_instance(fe, p)
+            # soft constraints, and the weight table the encoder computed for them (captured at the call, not recomputed)
+            import smt_encoding.complete_encoding.synthesis_full_encoding as _sfe
+            captured = {}
+            _orig = _sfe.soft_constraints_grouped_by_weight
+
+            def _wrap(sf, b0, weight_dict, bounds, label):
+                captured["w"] = list(weight_dict.items())
+                return _orig(sf, b0, weight_dict, bounds, label)
+            _sfe.soft_constraints_grouped_by_weight = _wrap
+            try:
+                soft = ["%d@%s" % (c.weight, _ser(c.formula, env)) for c in fe.generate_soft_constraints()]
+            finally:
+                _sfe.soft_constraints_grouped_by_weight = _orig
+            if inst is not None:
+                inst.append(",".join("%d:%d" % (k, w) for k, w in captured["w"]) if "w" in captured else "-")
             e["hard"] = hard
+            e["soft"] = soft
             e["inst"] = inst
             e["meta"] = meta
         except Exception as ex:
